@@ -72,6 +72,24 @@ Proof.
     constructor; auto. split; auto. intros n. simpl. eapply sim_ext; eauto.
 Qed.
 
+Lemma dc_entries1_sim cs h h' cs' :
+  dc_entries1 h cs = Some (h', cs') -> wf h ->
+  (forall l, In l (refs (mkObj KList cs)) -> (l < length h)%nat) ->
+  cells_sim h' cs cs'.
+Proof.
+  unfold dc_entries1. destruct (dc_cells (dc (S (length h))) h [] cs) as [[[h1 m1] cs1]|] eqn:D; [|discriminate].
+  intros H W B. inversion H; subst.
+  assert (I0 : inv 0 h []) by (apply inv_nil; auto; try lia; intros i o l _ _ _; lia).
+  destruct (dc_cells_sim 0 (dc (S (length h))) (dc_is_good 0 _) (dc_sim_is_good _) cs h [] h' m1 cs' D I0 B) as (_ & S); auto.
+  intros a b [].
+Qed.
+
+Lemma dc_entries_pol_sim single cs h h' cs' :
+  dc_entries_pol single h cs = Some (h', cs') -> wf h ->
+  (forall l, In l (refs (mkObj KList cs)) -> (l < length h)%nat) ->
+  cells_sim h' cs cs'.
+Proof. destruct single; cbn [dc_entries_pol]; [apply dc_entries1_sim | apply dc_entries_sim]. Qed.
+
 Lemma cells_sim_get h cs cs' k : cells_sim h cs cs' ->
   match cell_get k cs, cell_get k cs' with
   | Some w, Some w' => forall n, sim n h w w'
@@ -137,7 +155,7 @@ Proof.
   destruct (deepcopy h sp) as [[h1 sp']|] eqn:D; [|discriminate].
   destruct (init_M h1 c K (default_iargs K (val_src sp') (arr_len h r [V N_status]))) as [[h2 r2] ok] eqn:I.
   cbn [fst snd] in H, FK. destruct ok; [|discriminate].
-  destruct (dc_entries h2 (ocells o)) as [[h3 cs']|] eqn:E; [|discriminate].
+  destruct (dc_entries_pol (k_single_memo K) h2 (ocells o)) as [[h3 cs']|] eqn:E; [|discriminate].
   destruct (nth_error h3 r2) as [o'|] eqn:Eo'; [|discriminate].
   inversion H; subst r'; clear H. set (N := length h).
   destruct (deepcopy_fresh _ _ _ _ D W) as (X1 & W1 & C1 & V1). fold N in C1, V1.
@@ -157,15 +175,15 @@ Proof.
       unfold h0. rewrite app_length; simpl; lia. }
     destruct (actions_kinds _ _ _ _ _ R W0 ltac:(unfold h0; rewrite app_length; simpl; lia) AB0 (length h1) _ (nth_error_app_new h1 _))
       as (o2 & H2 & K2).
-    destruct (dc_entries_spec 0 _ _ _ _ E W2 ltac:(lia) ltac:(intros i o3 l3 _ _ _; lia)) as (X3 & _).
+    destruct (dc_entries_pol_spec _ 0 _ _ _ _ E W2 ltac:(lia) ltac:(intros i o3 l3 _ _ _; lia)) as (X3 & _).
     rewrite (ext_nth _ _ _ X3) in Eo' by (apply nth_error_lt in H2; exact H2).
     rewrite H2 in Eo'. inversion Eo'; subst o2. split; auto. }
   destruct Kd' as (Kd' & Eo2).
-  destruct (dc_entries_spec (length h2) _ _ _ _ E W2 (le_n _) (closed_above_len h2)) as (X3 & W3 & C3 & K3 & Keys).
+  destruct (dc_entries_pol_spec _ (length h2) _ _ _ _ E W2 (le_n _) (closed_above_len h2)) as (X3 & W3 & C3 & K3 & Keys).
   pose proof (ext_length _ _ X3) as L3.
   assert (Bo : forall l, In l (refs (mkObj KList (ocells o))) -> (l < length h2)%nat).
   { intros l Hl. assert (l < length h)%nat; [|lia]. eapply W; [exact Ho | destruct o; exact Hl]. }
-  pose proof (dc_entries_sim _ _ _ _ E W2 Bo) as Sim.
+  pose proof (dc_entries_pol_sim _ _ _ _ _ E W2 Bo) as Sim.
   split.
   - exists (mkObj (okind o') (dict_update (ocells o') cs')). split; [|simpl; congruence].
     unfold set_obj. rewrite nth_error_upd_same, Nat.eqb_refl.
